@@ -74,6 +74,21 @@ PROPS = {
             "rule": "time: one subprocess per zone (UTC, Europe/Berlin, America/New_York, Australia/Sydney, Asia/Kolkata, Pacific/Chatham; thorough adds MST7, "
                     "Etc/GMT-14) x utc flag x instants (range edges, DST transitions of both hemispheres, odd seconds, leap days, random) incl. out-of-range; "
                     "distinct = (zone, utc, DST phase); codec: all date/time words"},
+    "C18": {"suites": ["schedr"],
+            "rule": "schedr: 2-4 reader threads (listdir/getinfo/exists/readbytes/open+seek+read on own handles) on one lazily loading mount, FAT12 + "
+                    "FAT32 (thorough: + FAT16); per-thread results vs the same program alone on a fresh mount. Modes: dev = pre-emption-bounded "
+                    "exhaustive with yield points at every lock acquisition and every device access made without the device lock; line = same with yield "
+                    "points at the store lines (+ following statement, loop headers, first line) of every pyfatfs function that stores to an attribute/"
+                    "item (set computed from the current source by AST); thorough adds random-priority schedules with every pyfatfs line a yield point. "
+                    "Bound 2 for two threads, 1 for more; counters exhausted-bound*: program sets whose schedule space was enumerated completely.",
+            "assumptions": ["a thread is only pre-empted at yield points (CPython may switch between any two bytecodes; the line mode approximates that "
+                            "for the functions that write shared objects)"]},
+    "C19": {"suites": ["schedw"],
+            "rule": "schedw: 2-3 threads x 1-3 mutating operations (create/makedir/remove/writebytes/appendbytes/setinfo/handle sessions) in the same or "
+                    "different directories, FAT12 + FAT16 (thorough: + FAT32); for every explored schedule the per-thread results and final tree must be "
+                    "those of some sequential order (all interleavings of the operation sequences are run sequentially to obtain them), and after close "
+                    "the image must remount to the live tree and pass the independent checker. Exploration modes as in schedr.",
+            "assumptions": ["a thread is only pre-empted at yield points (see C18)"]},
     "C20": {
         "suites": ["codec"],
         "rule": "codec: exhaustive over all 65536 date and time words, all calendar dates 1980-2107, all 86400 times of day; "
@@ -179,6 +194,25 @@ MANIFEST_TEXT = {
             "note": _NOTE + "The DST fold hour is excluded in the statement (a local-time on-disk format cannot represent it). The tz database (CPython/glibc "
                     "zoneinfo) is trusted; its laws are checked per instant by the suite, not proved.",
             "technique": "Lean 4 proof parametric in the time-zone environment + per-zone subprocess round trips"},
+    "C18": {"text": "Theorems (Props.C18) over Model.Conc.Readers, for any number of threads, any programs, EVERY schedule: the listings a thread obtains are "
+                    "the device's true listings of its program's directories, hence equal to what it obtains alone; published (cached) listings are "
+                    "always the true ones — with several threads populating the same directory at once. Premises read off the current source by decide: "
+                    "every device read is a seek+read pair under the device lock; __populate_dirs publishes the finished local list after linking, then "
+                    "the flag. Witness theorem: with seek and read as separate steps a reader gets another directory's slots. The real code is run under a "
+                    "deterministic scheduler (pre-emption-bounded exhaustive; lock/device and source-line granularity) and compared with solo runs.",
+            "note": _NOTE + "The model's steps are coarser than bytecodes and it has no per-handle cursor (handles are private by the property's premise); "
+                    "the model is tied to the code by the extracted lock/ordering facts and the scheduler suite, not step by step.",
+            "technique": "Lean 4 proof over all schedules of a reader model + decide on extracted lock/ordering facts + controlled-scheduler exploration"},
+    "C19": {"text": "Theorems (Props.C19) over Model.Conc.Mutex, for any shared-state type, any number of threads and operations (each any list of micro-steps "
+                    "run between taking and releasing one lock), EVERY schedule: whenever the lock is free the shared state equals the logged operations "
+                    "executed sequentially in lock-acquisition order; that order contains each thread's operations in program order (a sequential order of "
+                    "the given operations). Premise by decide on the regenerated table: every public entry point of PyFatFS/FatIO that can reach a "
+                    "FAT/device-modifying function runs under the filesystem lock and handles share it. Witness: "
+                    "the allocator's scan/link unlocked cross-links. Real code under the deterministic scheduler: results + final tree vs all sequential "
+                    "orders, closed image remounted and checked independently.",
+            "note": _NOTE + "Entry-point reachability is computed by the extractor over a name-based call graph (over-approximation); unmounting concurrently "
+                    "with operations is outside the property.",
+            "technique": "Lean 4 proof (mutex linearizability over all schedules) + decide on extracted lock table + controlled-scheduler exploration"},
     "C20": {
         "text": "Lean theorems, for all inputs: date/time decoders total and inverse to the *translated* serialize_date/serialize_time; "
                 "FAT12/16/32 parse/serialise mutually inverse for every table length (FAT12 tail residues, FAT32 reserved bits) and equal to the "
